@@ -20,7 +20,7 @@ def host_files(work, seed):
     return out
 
 
-def populate_script(hf, r, fill_bytes, nfiles=40, xattrs=True, special=True, sparse=True, filler=0):
+def populate_script(hf, r, fill_bytes, nfiles=40, xattrs=True, special=True, sparse=True, filler=0, ndirs=0):
     """debugfs commands creating directories (one large enough for an htree), regular files up to
     fill_bytes in total, a fragmented/sparse file, symlinks, hard links, special files, xattrs"""
     cmds = ["mkdir d1", "mkdir d1/sub", "mkdir big", "mkdir empty", "mkdir d1/sub/x", "mkdir d1/sub/y"]
@@ -47,10 +47,16 @@ def populate_script(hf, r, fill_bytes, nfiles=40, xattrs=True, special=True, spa
         for k2 in range(1, 26, 2):
             cmds.append("punch d1/frag %d %d" % (k2, k2))
     cmds += ["write %s d1/sub/deep" % hf["small"], "symlink d1/fast /short", "symlink d1/slow /" + "L" * 150, "link d1/plain d1/hardlink"]
-    if xattrs:
-        cmds += ["ea_set d1/plain user.big %s" % ("v" * 200), "ea_set d1 user.k v", "ea_set d1/sub/deep user.a 1"]
     if special:
         cmds += ["mknod d1/fifo p", "mknod d1/chr c 4 5", "mknod d1/blk b 8 1"]
+    if xattrs:
+        cmds += ["ea_set d1/plain user.big %s" % ("v" * 200), "ea_set d1 user.k v", "ea_set d1/sub/deep user.a 1"]
+        # attributes large enough for an external block on inodes that own no data blocks
+        cmds += ["ea_set d1/fast user.onlink %s" % ("s" * 300)]
+        if special:
+            cmds += ["ea_set d1/fifo user.onfifo %s" % ("f" * 300), "ea_set d1/chr user.onchr %s" % ("c" * 300)]
+    for i in range(ndirs):
+        cmds.append("mkdir many_%04d" % i)
     if filler:
         # fillers take the low inode numbers, the block-less files created after them land in high groups;
         # removing the fillers leaves in-use inodes only there (a shrink must renumber them)
